@@ -264,6 +264,39 @@ func (r *Report) Finish(P *Program) int {
 	return 0
 }
 
+// Violations computes the verdict (floors and known findings applied) without writing
+// evidence or replay files; used by the seeded-change matrix tool.
+func (r *Report) Violations() []*Obligation {
+	vd := VerifDir()
+	floors := map[string]map[string]int{}
+	loadJSON(filepath.Join(vd, "tables", "floors.json"), &floors)
+	if fl, ok := floors[r.Property]; ok {
+		for rule, min := range fl {
+			if n := r.Count(rule); n < min {
+				r.add("floor", "-", rule, "-", "violated", fmt.Sprintf("rule %s matched %d instances, floor %d", rule, n, min))
+			}
+		}
+	}
+	var known []KnownFinding
+	loadJSON(filepath.Join(vd, "known_findings.json"), &known)
+	var out []*Obligation
+	for _, o := range r.Obls {
+		if o.Status == "discharged" {
+			continue
+		}
+		isKnown := false
+		for _, k := range known {
+			if k.Status == "known" && k.Property == r.Property && k.Rule == o.Rule && k.Func == o.Func && k.Construct == o.Construct {
+				isKnown = true
+			}
+		}
+		if !isKnown {
+			out = append(out, o)
+		}
+	}
+	return out
+}
+
 // Fail is used when the tree cannot be analysed at all.
 func Fail(property, tier, msg string) int {
 	r := NewReport(property, tier)
